@@ -38,6 +38,7 @@ pub struct Gen {
     pub allow_splat: bool,
     readonly: std::collections::HashSet<String>,
     try_depth: usize,
+    pub no_self_shadow: bool,
 }
 
 const STRS: &[&str] = &["a", "bc", "", "xyz", "q"];
@@ -58,6 +59,7 @@ impl Gen {
             allow_splat: true,
             readonly: Default::default(),
             try_depth: 0,
+            no_self_shadow: false,
         }
     }
     fn feat(&mut self, f: &'static str) {
@@ -673,7 +675,7 @@ impl Gen {
                     if !in_current || true {
                         self.feat("shadowing");
                         let t = self.fresh();
-                        let e = self.gen_int(d - 1);
+                        let e = if self.no_self_shadow { Expr::Int(self.small_int()) } else { self.gen_int(d - 1) };
                         let body = self.in_frame(|g| {
                             g.declare(&t, Ty::Int);
                             g.in_frame(|g| {
@@ -714,10 +716,14 @@ impl Gen {
                 let f = self.fresh();
                 let (p1, p2, p3) = (self.fresh(), self.fresh(), self.fresh());
                 let dv = self.small_int();
+                let dflt_expr = match self.pick_var(&Ty::Int) {
+                    Some(v) if self.rng.chance(1, 2) => Expr::Ident(v),
+                    _ => Expr::Int(dv),
+                };
                 let use_splat = self.allow_splat && self.rng.chance(1, 2);
                 let mut params = vec![
                     Param { name: p1.clone(), dflt: None, splat: false },
-                    Param { name: p2.clone(), dflt: Some(Expr::Int(dv)), splat: false },
+                    Param { name: p2.clone(), dflt: Some(dflt_expr), splat: false },
                 ];
                 let body = if use_splat {
                     self.feat("lambda-splat");
@@ -847,6 +853,146 @@ impl Gen {
             dump.push(Expr::Try(b(Expr::Call(b(Expr::Ident(v.name.clone())), vec![])), Pat::Underscore, b(Expr::Int(-3))));
         }
         xs.push(Expr::List(dump));
+        Expr::Seq(xs, false)
+    }
+
+    // ---------------------------------------------------------------- C17: freeze cases
+    /// prelude of outer variables (ints, strings, lists, one pure function), all read-only afterwards
+    pub fn gen_freeze_case(&mut self, kind: u64) -> FreezeCase {
+        self.allow_eval = false;
+        self.no_self_shadow = true;
+        let mut prelude = vec![];
+        let mut outer: Vec<(String, Ty)> = vec![];
+        let n = 2 + self.rng.below(3);
+        for i in 0..n {
+            let x = format!("o{}", i + 1);
+            let (ty, e) = match self.rng.below(4) {
+                0 | 1 => (Ty::Int, Expr::Int(self.small_int())),
+                2 => (Ty::Str, Expr::Str(self.rng.pick(STRS).to_string())),
+                _ => (Ty::List, Expr::List(vec![Expr::Int(self.small_int()), Expr::Int(self.small_int())])),
+            };
+            self.declare(&x, ty.clone());
+            self.readonly.insert(x.clone());
+            outer.push((x.clone(), ty));
+            prelude.push(Expr::Declare(Pat::Ident(x), b(e)));
+        }
+        // a pure outer function reading an outer int
+        let k = self.small_int();
+        let of = "of1".to_string();
+        prelude.push(Expr::Declare(
+            Pat::Ident(of.clone()),
+            b(Expr::Lambda(
+                vec![Param { name: "q".into(), dflt: None, splat: false }],
+                b(Expr::Op("+".into(), b(Expr::Op("*".into(), b(Expr::Ident("q".into())), b(Expr::Int(k)))), b(Expr::Int(1)))),
+            )),
+        ));
+        self.declare(&of, Ty::Fun1);
+        self.readonly.insert(of.clone());
+        // the lambda under test
+        let p = self.fresh();
+        let d = self.max_depth;
+        self.budget = 50;
+        self.in_lambda += 1;
+        let mut body = self.in_frame(|g| {
+            g.declare(&p, Ty::Int);
+            g.conditional(|g| {
+                let n = 1 + g.rng.below(3);
+                let mut xs = vec![];
+                for _ in 0..n {
+                    xs.push(g.gen_stmt(d));
+                }
+                // make sure outer variables are actually mentioned
+                let mut uses = vec![Expr::Ident(p.clone())];
+                for (x, ty) in outer.iter() {
+                    match ty {
+                        Ty::Int => uses.push(Expr::Ident(x.clone())),
+                        Ty::Str => uses.push(Expr::Call(b(Expr::Ident("len".into())), vec![Expr::Ident(x.clone())])),
+                        _ => uses.push(Expr::Call(b(Expr::Ident("len".into())), vec![Expr::Ident(x.clone())])),
+                    }
+                }
+                uses.push(Expr::Call(b(Expr::Ident("of1".into())), vec![Expr::Ident(p.clone())]));
+                uses.push(g.gen_int(d));
+                xs.push(Expr::List(uses));
+                Expr::Seq(xs, false)
+            })
+        });
+        self.in_lambda -= 1;
+        let mut expect_fail = false;
+        match kind {
+            1 => {
+                self.feat("fail-unbound-free");
+                expect_fail = true;
+                body = Expr::Seq(vec![Expr::If(b(Expr::Int(0)), b(Expr::Call(b(Expr::Ident("print".into())), vec![Expr::Ident("zz_unbound".into())])), None), body], false);
+            }
+            2 => {
+                self.feat("fail-assign-outer");
+                expect_fail = true;
+                let (x, _) = outer[0].clone();
+                body = Expr::Seq(vec![Expr::If(b(Expr::Int(0)), b(Expr::Assign(x, b(Expr::Int(5)))), None), body], false);
+            }
+            3 => {
+                self.feat("fail-opassign-outer");
+                expect_fail = true;
+                if let Some((x, _)) = outer.iter().find(|(_, t)| *t == Ty::Int).cloned() {
+                    body = Expr::Seq(vec![Expr::If(b(Expr::Int(0)), b(Expr::OpAssign(x, "+".into(), b(Expr::Int(5)))), None), body], false);
+                } else {
+                    body = Expr::Seq(vec![Expr::If(b(Expr::Int(0)), b(Expr::Assign("zz_undeclared".into(), b(Expr::Int(5)))), None), body], false);
+                }
+            }
+            _ => {}
+        }
+        let lambda = Expr::Lambda(vec![Param { name: p, dflt: None, splat: false }], b(body));
+        let arg = Expr::Int(self.small_int());
+        // reassign every outer variable (and the outer function) between the two frozen calls
+        let mut reassign = vec![];
+        for (x, ty) in outer.iter() {
+            reassign.push(match ty {
+                Ty::Int => Expr::Assign(x.clone(), b(Expr::Op("+".into(), b(Expr::Ident(x.clone())), b(Expr::Int(100))))),
+                Ty::Str => Expr::Assign(x.clone(), b(Expr::Op("$".into(), b(Expr::Ident(x.clone())), b(Expr::Str("zz".into()))))),
+                _ => Expr::Assign(x.clone(), b(Expr::Op("++".into(), b(Expr::Ident(x.clone())), b(Expr::List(vec![Expr::Int(9), Expr::Int(9)]))))),
+            });
+        }
+        reassign.push(Expr::Assign(
+            "of1".into(),
+            b(Expr::Lambda(vec![Param { name: "q".into(), dflt: None, splat: false }], b(Expr::Int(-1000)))),
+        ));
+        FreezeCase { prelude, lambda, arg, reassign, expect_fail }
+    }
+}
+
+pub struct FreezeCase {
+    pub prelude: Vec<Expr>,
+    pub lambda: Expr,
+    pub arg: Expr,
+    pub reassign: Vec<Expr>,
+    pub expect_fail: bool,
+}
+impl FreezeCase {
+    /// prelude; hf := 1; try (h := freeze L) catch _ -> (hf = 0); g := L;
+    /// print("#1"); r1 := try h(a) catch _ -> "E"; print("#2"); u1 := try g(a) catch _ -> "E";
+    /// reassign…; print("#3"); r2 := try h(a) catch _ -> "E"; [hf, r1, u1, r2]
+    pub fn program(&self) -> Expr {
+        let id = |s: &str| Expr::Ident(s.to_string());
+        let print = |s: &str| Expr::Call(b(id("print")), vec![Expr::Str(s.to_string())]);
+        let guarded = |f: &str, arg: &Expr| {
+            Expr::Try(b(Expr::Call(b(id(f)), vec![arg.clone()])), Pat::Underscore, b(Expr::Str("E".into())))
+        };
+        let mut xs = self.prelude.clone();
+        xs.push(Expr::Declare(Pat::Ident("hf".into()), b(Expr::Int(1))));
+        xs.push(Expr::Try(
+            b(Expr::Declare(Pat::Ident("h".into()), b(Expr::Freeze(b(self.lambda.clone()))))),
+            Pat::Underscore,
+            b(Expr::Assign("hf".into(), b(Expr::Int(0)))),
+        ));
+        xs.push(Expr::Declare(Pat::Ident("g".into()), b(self.lambda.clone())));
+        xs.push(print("#1"));
+        xs.push(Expr::Declare(Pat::Ident("r1".into()), b(guarded("h", &self.arg))));
+        xs.push(print("#2"));
+        xs.push(Expr::Declare(Pat::Ident("u1".into()), b(guarded("g", &self.arg))));
+        xs.extend(self.reassign.clone());
+        xs.push(print("#3"));
+        xs.push(Expr::Declare(Pat::Ident("r2".into()), b(guarded("h", &self.arg))));
+        xs.push(Expr::List(vec![id("hf"), id("r1"), id("u1"), id("r2")]));
         Expr::Seq(xs, false)
     }
 }
